@@ -97,6 +97,8 @@ def run_batch(seed, batch, tier):
         for o in B.op_sequence(case["recipe"]):
             b.count("operators", o)
         if status in ("mismatch", "sql-raised"):
+            if status == "sql-raised":
+                trig = trig - {"float_tie_cmp"}  # a near tie of float operands can explain a different value, not a refusal
             if trig:
                 b.count("not_judged_trigger", ",".join(sorted(trig)))
                 continue
